@@ -226,3 +226,71 @@ class FileGate:
             if time.time() - t0 > timeout:
                 raise TimeoutError(f"tasks {ks} did not all start: {self.started()}")
             time.sleep(0.002)
+
+
+def run_gated(call, gate_dir, ntasks, workers, prefix=(), slow=False):
+    """Drive one pool execution whose tasks block on FileGate-style gates in `gate_dir`.
+
+    call() performs the (blocking) API call and returns its result; it runs in a helper thread while this
+    function plays controller: wait until the set of started-and-unreleased tasks has the size the pool can
+    sustain (min(workers, remaining)), pick one according to `prefix` (default: lowest index), release it.
+    Returns (("value", result) | ("raises", type, msg) | ("hung",), points=[(enabled, choice)], released)."""
+    box = {}
+
+    def target():
+        try:
+            box["r"] = ("value", call())
+        except BaseException as e:  # noqa
+            box["r"] = ("raises", type(e).__name__, str(e)[:300])
+
+    t = threading.Thread(target=target, daemon=True)
+    t.start()
+    released, points = [], []
+    limit = 180 if slow else 20
+    while len(released) < ntasks and t.is_alive():
+        want = min(workers, ntasks - len(released))
+        t0 = time.time()
+        timed_out = False
+        while True:
+            started = sorted(int(x.split(".")[1]) for x in os.listdir(gate_dir) if x.startswith("started."))
+            enabled = [k for k in started if k not in released]
+            if len(enabled) >= want or not t.is_alive():
+                break
+            if time.time() - t0 > limit:
+                timed_out = True
+                break
+            time.sleep(0.001)
+        if not enabled:
+            break
+        if len(enabled) > 1:
+            i = len(points)
+            c = prefix[i] if i < len(prefix) else 0
+            if c >= len(enabled):
+                raise Divergence(f"replay divergence: choice {c} of {enabled}")
+            points.append((enabled, c))
+            k = enabled[c]
+        else:
+            k = enabled[0]
+        open(os.path.join(gate_dir, f"go.{k}"), "w").close()
+        released.append(k)
+        if timed_out:
+            break
+    for k in range(max(ntasks, 1)):  # safety: nothing may hang
+        open(os.path.join(gate_dir, f"go.{k}"), "w").close()
+    t.join(300 if slow else 120)
+    if t.is_alive():
+        return ("hung",), points, released
+    return box.get("r", ("nothing",)), points, released
+
+
+def all_completion_orders(execute):
+    """DFS over the full decision tree. execute(prefix) -> (obs, points, released); yields each execution."""
+    stack = [[]]
+    while stack:
+        prefix = stack.pop()
+        obs, points, released = execute(prefix)
+        yield prefix, obs, points, released
+        for i in range(len(prefix), len(points)):
+            enabled, c = points[i]
+            for alt in range(1, len(enabled)):
+                stack.append([p[1] for p in points[:i]] + [alt])
